@@ -59,13 +59,22 @@ def run(tier, seed):
             a_s.challenge = rng.randbytes(32)
             # sign with THIS credential's key (Scn.build uses slot 0; rebuild with the right slot)
             cdj = (b"", b"\xef\xbb\xbf", b" ")[(slot + step) % 3] + authsim.client_data("webauthn.get", a_s.challenge, a_s.origin) + (b"", b"\n")[step % 2]      # what the client serialised is what was hashed
-            ad = authsim.authdata(a_s.rp_id, 0x05, a_s.count)
+            if (slot + step) % 4 == 1:
+                # an assertion MAY carry an attested-credential-data block (AT): whatever id and key it names, the credential that authenticated is the one
+                # presented as rawId, verified with the key the RP stored for it
+                other = authsim.Cred("ES256-P256", slot=5)
+                ad = authsim.authdata(a_s.rp_id, 0x45, a_s.count, aaguid=bytes(16), cred_id=(b"somebody-else's-credential", b"", stored_id + b"x")[step % 3], cose_bytes=(other.cose_bytes, cred.cose_bytes)[step % 2])
+            else:
+                ad = authsim.authdata(a_s.rp_id, 0x05, a_s.count)
             sig = cred.sign(ad + hashlib.sha256(cdj).digest())
             a = authsim.Assertion(cred, stored_id, cdj, ad, sig)
             apol = impl.AuthPolicy(a_s.challenge, a_s.rp_id, a_s.origin, stored_key, stored_count, False)
             il2, _ = A.run_case(apol, a, authrun.FORMS[step % 3], "accept", f"authenticate-after/{fmt}")
             if il2.startswith("OK"):
                 stored_count = fw.rd_i(il2.split()[2])
+                if fw.rd_b(il2.split()[1]) != stored_id:
+                    chk.violation("authentication reports another credential id than the one that was presented and verified", f"reported-id authenticate-after/{fmt}",
+                                  {"entry": "verify_authentication_response", "presented_raw_id": stored_id.hex(), "reported": il2.split()[1], "authenticator_data_hex": ad.hex(), "credential": a.as_dict()})
         registered.append((f"{fmt}/{kind}", cred, stored_id, stored_key, stored_count))
     # rare but conformant shapes: Ed25519 key whose encoding starts with 0x00; short DER ECDSA signatures
     edz = authsim.ed_cred_leading_zero()
